@@ -247,6 +247,8 @@ func cmdProp(args []string) int {
 			obls = append(obls, o)
 		}
 	}
+	// the word-level memory axioms used by every VC are proved from their byte-level definitions
+	obls = append(obls, MemLemmas()...)
 	// vacuity guard: each function's assumption set must not be refutable
 	var guards []*Obligation
 	for _, fv := range fvs {
@@ -272,6 +274,23 @@ func cmdProp(args []string) int {
 	}
 
 	results := DischargeAll(obls, timeout, all, runtime.NumCPU())
+	// second chance for undecided obligations: solver time-outs under machine load must not
+	// turn into alarms; a retry runs alone with a longer limit.
+	var retry []*Obligation
+	var retryIdx []int
+	for i, r := range results {
+		if r.Status != "unsat" && r.Status != "sat" && r.Status != "disagree" {
+			retry = append(retry, r.Obl)
+			retryIdx = append(retryIdx, i)
+		}
+	}
+	if len(retry) > 0 && len(retry) <= 40 {
+		rr := DischargeAll(retry, timeout*3, all, 4)
+		for k, r := range rr {
+			r.Tried = append(results[retryIdx[k]].Tried, append([]string{"retry:"}, r.Tried...)...)
+			results[retryIdx[k]] = r
+		}
+	}
 	gres := DischargeAll(guards, 3000, false, runtime.NumCPU())
 	tres := DischargeAll(twinObls, 10000, false, runtime.NumCPU())
 
@@ -432,6 +451,10 @@ func cmdProp(args []string) int {
 	os.MkdirAll(filepath.Join(root, "evidence"), 0o755)
 	data, _ := json.MarshalIndent(ev, "", " ")
 	os.WriteFile(filepath.Join(root, "evidence", ps.ID+".json"), data, 0o644)
+	sort.Slice(results, func(i, j int) bool { return results[i].Time > results[j].Time })
+	for i := 0; i < 3 && i < len(results); i++ {
+		fmt.Printf("    slowest: %6.2fs %s [%s]\n", results[i].Time, results[i].Obl.Name, results[i].Status)
+	}
 	fmt.Printf("property %s tier %s: %d/%d obligations discharged over %d functions, %d violation(s), %.1fs\n", ps.ID, *tier, discharged, len(results), len(ps.Functions), violations, time.Since(t0).Seconds())
 	if violations > 0 {
 		return 1
